@@ -213,8 +213,21 @@ class Gen:
 def js_str(codes): return json.dumps(''.join(chr(c) for c in codes))
 ASYNC=False
 DECO=None   # random.Random for decoration choices, or None
-TYPES=['number','string','any','unknown','number | string','Array<number>','number[]','{ a: number; b?: string }','(x: number) => void','[number, string]','Record<string, any>','T extends U ? X : Y','keyof typeof Math','readonly number[]','Map<string, Array<{k: number}>>','A & B','null | undefined','"lit" | 1 | true','typeof globalThis','(new () => object)']
-def ty(): return DECO.choice(TYPES)
+DECO_USED=set()   # decoration kinds used while printing (reset by the caller)
+DECO_AVOID=set()  # decoration kinds not to use (open findings: avoided in composite programs so they cannot mask new defects)
+TYPES=[('number','prim'),('string','prim'),('any','prim'),('unknown','prim'),('number | string','union'),('Array<number>','generic_ref'),
+       ('number[]','array'),('{ a: number; b?: string }','object'),('(x: number) => void','function'),('[number, string]','tuple'),
+       ('Record<string, any>','generic_ref'),('T extends U ? X : Y','conditional'),('keyof typeof Math','keyof_typeof'),
+       ('readonly number[]','readonly_array'),('Map<string, Array<{k: number}>>','nested_generic'),('A & B','intersection'),
+       ('null | undefined','union'),('"lit" | 1 | true','literal_union'),('typeof globalThis','typeof'),('(new () => object)','constructor'),
+       ('{ [K in keyof T]?: T[K] }','mapped'),('T["a"]["b"]','indexed'),('[first: number, ...rest: string[]]','named_tuple'),
+       ('(this: Window, ...args: any[]) => asserts args is string[]','function_this_asserts'),('unique symbol','unique_symbol'),
+       ('`a${string}`','template_literal'),('Array<Array<Array<number>>>','nested_generic'),('infer_ extends (infer R)[] ? R : never','conditional_infer')]
+def use(tag): DECO_USED.add(tag)
+def ty():
+    pool=[x for x in TYPES if ('type:'+x[1]) not in DECO_AVOID] or TYPES
+    t,k=DECO.choice(pool); use('type:'+k); return t
+def av(tag): return tag in DECO_AVOID
 def pr(P, n, ind=0):
     d=P['nodes'][n-1]; t=d['ty']; I='  '*ind
     if t=='order': return f"(await order({pr(P,d['a'],ind)}))"
@@ -240,15 +253,17 @@ def pr(P, n, ind=0):
     if t=='nan': return 'NaN'
     if t=='inf': return 'Infinity' if d['s']==1 else '(-Infinity)'
     if t=='var':
-        if DECO and DECO.random()<0.1: return f"({d['name']} as {ty()})"
-        if DECO and DECO.random()<0.05: return f"(<{DECO.choice(['any','unknown','number'])}>{d['name']})"
+        if DECO and DECO.random()<0.1: use('as'); return f"({d['name']} as {ty()})"
+        if DECO and DECO.random()<0.05: use('angle'); return f"(<{DECO.choice(['any','unknown','number'])}>{d['name']})"
+        if DECO and not av('satisfies') and DECO.random()<0.03: use('satisfies'); return f"({d['name']} satisfies {ty()})"
+        if DECO and not av('as_chain') and DECO.random()<0.03: use('as_chain'); return f"({d['name']} as unknown as {ty()})"
         return d['name']
     if t=='typeofvar': return f"(typeof {d['name']})"
     if t=='assign': return f"({d['name']} = {E(d['a'])})"
     if t=='bin':
         r=f"({E(d['a'])} {d['op']} {E(d['b'])})"
-        if DECO and DECO.random()<0.1: return f"({r} as {ty()})"
-        if DECO and DECO.random()<0.05: return f"({r}!)"
+        if DECO and DECO.random()<0.1: use('as'); return f"({r} as {ty()})"
+        if DECO and DECO.random()<0.05: use('nonnull'); return f"({r}!)"
         return r
     if t=='logical':
         return f"({E(d['a'])} {d['op']} {E(d['b'])})"
@@ -261,11 +276,18 @@ def pr(P, n, ind=0):
         c=f"{E(d['f'])}({', '.join(E(a) for a in d['args'])})"
         return f"(await {c})" if ASYNC else c
     if t=='func':
-        ps=', '.join((p+(('?' if DECO.random()<0.2 else '')+': '+ty() if DECO and DECO.random()<0.6 else '')) for p in d['params'])
+        def par(p):
+            if DECO and DECO.random()<0.6:
+                if DECO.random()<0.2: use('optional_param'); return p+'?: '+ty()
+                use('ann:param'); return p+': '+ty()
+            return p
+        ps=', '.join(par(p) for p in d['params'])
         a='async ' if ASYNC else ''
-        rt=(': '+DECO.choice(['any','unknown','void | any'])) if DECO and DECO.random()<0.4 else ''
+        rt=''
+        if DECO and DECO.random()<0.4: use('ann:return_arrow' if d['arrow'] else 'ann:return'); rt=': '+DECO.choice(['any','unknown','void | any'])
         if DECO:
             gen=DECO.choice(['','','<T>','<T, U extends object = {}>']) if not d['arrow'] else ''
+            if gen: use('generic_fn')
             if d['arrow']: return f"({a}({ps}){rt} => {pr(P,d['body'],ind)})"
             return f"({a}function{gen}({ps}){rt} {pr(P,d['body'],ind)})"
         if d['arrow']: return f"({a}({ps}) => {pr(P,d['body'],ind)})"
@@ -274,11 +296,20 @@ def pr(P, n, ind=0):
     if t=='exprstmt': return f"{I}{E(d['a'])};\n"
     if t=='log': return f"{I}LOG({E(d['a'])});\n"
     if t=='decl':
-        ann=(': '+ty()) if DECO and DECO.random()<0.6 else ''
+        ann=''
+        if DECO and DECO.random()<0.6: use('ann:var'); ann=': '+ty()
         pre=''
-        if DECO and DECO.random()<0.08: pre=f"{I}interface I{n} {{ a: number; m(x: string): void; readonly [k: string]: any }}\n"
-        if DECO and DECO.random()<0.08: pre+=f"{I}type A{n}<T = any> = T | {ty()};\n"
-        if DECO and DECO.random()<0.04: pre+=f"{I}declare const zz{n}: {ty()};\n"
+        if DECO and DECO.random()<0.08:
+            use('interface'); extra=''
+            if DECO.random()<0.3: use('interface_construct_sig'); extra+=f" new (x: T): I{n};"
+            if not av('interface_call_sig') and DECO.random()<0.3: use('interface_call_sig'); extra+=" (y: number): T;"
+            if not av('interface_generic_call_sig') and DECO.random()<0.15: use('interface_generic_call_sig'); extra+=" <U>(y: U): T;"
+            pre=f"{I}interface I{n}<T = any> extends Object {{ a: number; m(x: string): void; readonly [k: string]: any;{extra} }}\n"
+        if DECO and DECO.random()<0.08: use('type_alias'); pre+=f"{I}type A{n}<T = any> = T | {ty()};\n"
+        if DECO and DECO.random()<0.04: use('declare_const'); pre+=f"{I}declare const zz{n}: {ty()};\n"
+        if DECO and DECO.random()<0.03: use('declare_function'); pre+=f"{I}declare function zf{n}<T>(a: T, b?: {ty()}): void;\n"
+        if DECO and DECO.random()<0.03: use('definite_assignment'); ann = ann or ': any'
+        if DECO and not av('definite_bang') and d['kind']=='let' and not d['a'] and DECO.random()<0.2: use('definite_bang'); ann='!'+(ann or ': any')
         return pre+f"{I}{d['kind']} {d['name']}{ann}" + (f" = {E(d['a'])}" if d['a'] else '') + ";\n"
     if t=='block':
         return "{\n" + ''.join(prs(P,x,ind+1) for x in d['xs']) + I + "}"
@@ -298,10 +329,18 @@ def pr(P, n, ind=0):
         if d['c']: s+=f" finally {pr(P,d['c'],ind)}"
         return s+"\n"
     if t=='funcdecl':
-        ps=', '.join((p+(': '+ty() if DECO and DECO.random()<0.6 else '')) for p in d['params'])
+        def par(p):
+            if DECO and DECO.random()<0.6: use('ann:param'); return p+': '+ty()
+            return p
+        ps=', '.join(par(p) for p in d['params'])
         gen=DECO.choice(['','<T>','<K extends keyof any, V = unknown>']) if DECO else ''
-        rt=(': '+DECO.choice(['any','unknown'])) if DECO and DECO.random()<0.4 else ''
+        if gen: use('generic_fn')
+        rt=''
+        if DECO and DECO.random()<0.4: use('ann:return'); rt=': '+DECO.choice(['any','unknown'])
         star='*' if d.get('gen') else ''
+        if DECO and not av('overload') and not star and DECO.random()<0.1:
+            use('overload'); I2=I
+            return f"{I}function {d['name']}({', '.join(p+': number' for p in d['params'])}): void;\n{I}function {d['name']}{gen}({ps}){rt} {pr(P,d['body'],ind)}\n"
         return f"{I}{'async ' if (ASYNC and not star) else ''}function{star} {d['name']}{gen}({ps}){rt} {pr(P,d['body'],ind)}\n"
     if t=='labeled': return f"{I}{d['label']}: {pr(P,d['body'],ind)}\n"
     if t=='program': return ''.join(prs(P,x,ind) for x in d['xs'])
